@@ -1,5 +1,5 @@
 (* Executable entry of the extracted C14 model: opcode :: payload. *)
-From GV Require Import Base.Prelude Valid.Overlap Valid.PairSet Valid.OverlapWire Valid.OverlapOpt.
+From GV Require Import Base.Prelude Valid.Overlap Valid.PairSet Valid.OverlapWire Valid.OverlapOpt Valid.OverlapOptTerm.
 
 Definition enc_verdict (v : verdict) : N :=
   match v with VNo => 0 | VConflict => 1 | VUntyped => 2 | VFuel => 3 end.
@@ -59,7 +59,8 @@ Definition run (inp : list N) : list N :=
       match dec_case r' with
       | Some (s, d) =>
         if nodupb (doc_all_ids d) then
-          match opt_run s d order (nat_of fuel) with
+          (* the fuel proved sufficient (OverlapOptTerm.opt_terminates); the wire value is ignored *)
+          match opt_run s d order (opt_fuel d) with
           | RFuel => [3]
           | RConflict m => 1 :: enc_memo m
           | ROk m => 0 :: enc_memo m
